@@ -533,6 +533,40 @@ func registerBigModels(ex *Exec) {
 		}
 		return buf, nil, nil
 	}
+	m["(*math/big.Int).Exp"] = func(ex *Exec, s *State, cc *ssa.CallCommon, a []Value) (Value, *Fork, error) {
+		// z.Exp(x, y, m) for a small constant exponent y and modulus m > 0: repeated multiply-and-reduce
+		y, err := ex.bigGet(s, a[2])
+		if err != nil {
+			return nil, nil, err
+		}
+		if !y.T.IsConst() || y.T.BigVal().BitLen() > 4 {
+			return nil, nil, unsupported("big.Int.Exp with a symbolic or large exponent")
+		}
+		mp, ok := a[3].(Ptr)
+		if !ok || mp.Obj == 0 {
+			return nil, nil, unsupported("big.Int.Exp without modulus")
+		}
+		e := int(y.T.BigVal().Int64())
+		mulFn, modFn := ex.Models["(*math/big.Int).Mul"], ex.Models["(*math/big.Int).Mod"]
+		one := ex.newBig(s, ex.bigConst(big.NewInt(1)))
+		acc := ex.newBig(s, ex.bigConst(big.NewInt(1)))
+		if _, _, err := modFn(ex, s, cc, []Value{acc, one, a[3]}); err != nil {
+			return nil, nil, err
+		}
+		for i := 0; i < e; i++ {
+			if _, _, err := mulFn(ex, s, cc, []Value{acc, acc, a[1]}); err != nil {
+				return nil, nil, err
+			}
+			if _, _, err := modFn(ex, s, cc, []Value{acc, acc, a[3]}); err != nil {
+				return nil, nil, err
+			}
+		}
+		r, err := ex.bigGet(s, acc)
+		if err != nil {
+			return nil, nil, err
+		}
+		return ex.bigSet(s, a[0], r)
+	}
 	m["(*math/big.Int).String"] = func(ex *Exec, s *State, cc *ssa.CallCommon, a []Value) (Value, *Fork, error) {
 		return ex.strConst("<big.Int>"), nil, nil
 	}
